@@ -696,3 +696,99 @@ Proof.
   intros p q. unfold cfg_of.
   destruct p as [|[|[|p]]], q as [|[|[|q]]]; simpl; intros H1 H2; try reflexivity; discriminate.
 Qed.
+
+(* ---------------------------------------------------------------------------------------------- *)
+(* reply delivery as an input of the worker loop                                                  *)
+(* ---------------------------------------------------------------------------------------------- *)
+Lemma worker_step_loss s rq d1 d2 :
+  fst (worker_step s rq d1) = fst (worker_step s rq d2) /\
+  fst (snd (worker_step s rq d1)) = fst (snd (worker_step s rq d2)).
+Proof.
+  destruct rq as [a t|t x]; simpl.
+  - destruct (lock_step (w_owner s) a t); simpl. auto.
+  - destruct (method_gate (w_owner s) t); simpl; auto.
+Qed.
+
+Lemma worker_run_cons s rq d r :
+  worker_run s ((rq, d) :: r) =
+  (fst (worker_run (fst (worker_step s rq d)) r),
+   snd (worker_step s rq d) :: snd (worker_run (fst (worker_step s rq d)) r)).
+Proof.
+  simpl. destruct (worker_step s rq d) as [s1 x]. simpl. destruct (worker_run s1 r). reflexivity.
+Qed.
+
+(* two histories with the same requests and ANY delivery outcomes: same lock state, same log, same replies *)
+Lemma worker_run_loss l1 : forall l2 s,
+  map fst l1 = map fst l2 ->
+  fst (worker_run s l1) = fst (worker_run s l2) /\
+  map fst (snd (worker_run s l1)) = map fst (snd (worker_run s l2)).
+Proof.
+  induction l1 as [|[rq d1] r1 IH]; intros [|[rq2 d2] r2] s H; simpl in H; try discriminate.
+  - simpl. auto.
+  - inversion H; subst rq2. rewrite !worker_run_cons. cbn [fst snd map].
+    destruct (worker_step_loss s rq d1 d2) as [E1 E2]. rewrite E1.
+    destruct (IH r2 (fst (worker_step s rq d2)) H2) as [I1 I2].
+    split; [exact I1|]. rewrite E2, I2. reflexivity.
+Qed.
+
+(* the worker loop is the lock machine and the gate, nothing else *)
+Lemma worker_step_spec s rq d :
+  worker_step s rq d =
+  match rq with
+  | RqLock a t => (mkW (fst (lock_step (w_owner s) a t)) (w_log s), (WLock (snd (lock_step (w_owner s) a t)), d))
+  | RqCall t x => if method_gate (w_owner s) t
+                  then (mkW (w_owner s) (w_log s ++ [x]), (WExec true, d)) else (s, (WExec false, d))
+  end.
+Proof. destruct rq as [a t|t x]; simpl; [destruct (lock_step (w_owner s) a t)|]; reflexivity. Qed.
+
+(* proxies: a lost reply changes neither owner nor log; the proxy remembers what it remembered *)
+Lemma sys_step_d_loss s o d :
+  owner (fst (sys_step_d s o d)) = owner (fst (sys_step s o)) /\
+  log (fst (sys_step_d s o d)) = log (fst (sys_step s o)) /\
+  (d = true -> sys_step_d s o d = (fst (sys_step s o), Some (snd (sys_step s o)))) /\
+  (d = false -> ptok (fst (sys_step_d s o d)) = ptok s /\ snd (sys_step_d s o d) = None).
+Proof.
+  unfold sys_step_d. destruct (sys_step s o) as [s1 x]. destruct d; simpl; repeat split; auto; discriminate.
+Qed.
+
+Lemma sys_run_d_cons s o d r :
+  sys_run_d s ((o, d) :: r) =
+  (fst (sys_run_d (fst (sys_step_d s o d)) r),
+   snd (sys_step_d s o d) :: snd (sys_run_d (fst (sys_step_d s o d)) r)).
+Proof.
+  simpl. destruct (sys_step_d s o d) as [s1 x]. simpl. destruct (sys_run_d s1 r). reflexivity.
+Qed.
+
+Fixpoint no_release_d (s : sys) (l : list (op * bool)) (t : token) : Prop :=
+  match l with
+  | [] => True
+  | (o, d) :: r => ~ releases s o t /\ no_release_d (fst (sys_step_d s o d)) r t
+  end.
+
+Fixpoint executed_d (s : sys) (l : list (op * bool)) : list (option token * N) :=
+  match l with
+  | [] => []
+  | (o, d) :: r =>
+      let s1 := fst (sys_step_d s o d) in
+      match call_of s o with
+      | Some (t, x) => if method_gate (owner s) t then (t, x) :: executed_d s1 r else executed_d s1 r
+      | None => executed_d s1 r
+      end
+  end.
+
+(* held until released, whatever replies get lost on the way *)
+Lemma held_until_released_d l : forall s t,
+  owner s = Some t -> no_release_d s l t ->
+  owner (fst (sys_run_d s l)) = Some t /\ Forall (fun e => fst e = Some t) (executed_d s l).
+Proof.
+  induction l as [|[o d] r IH]; intros s t Ho Hn.
+  - simpl. auto.
+  - destruct Hn as [Hn1 Hn2]. rewrite sys_run_d_cons. cbn [fst].
+    assert (Ho1 : owner (fst (sys_step_d s o d)) = Some t).
+    { destruct (sys_step_d_loss s o d) as [E _]. rewrite E. apply owner_stable; assumption. }
+    destruct (IH _ _ Ho1 Hn2) as [IH1 IH2]. split; [exact IH1|].
+    cbn [executed_d]. destruct (call_of s o) as [[u x]|]; [|exact IH2].
+    destruct (method_gate (owner s) u) eqn:G; [|exact IH2].
+    constructor; [|exact IH2]. simpl. rewrite Ho in G. simpl in G.
+    apply otoken_eqb_eq in G. congruence.
+Qed.
